@@ -901,7 +901,7 @@ def leaf_dense_jacobians(fmt: str, shape: str, n: int):
     K = n if shape == "sq" else 2 * n
     Jx = np.zeros((n, K))
     if fmt.startswith("dia"):
-        offs = (-1, 0, 1) if fmt == "dia_band" else ((0, 2) if shape == "sq" else (1, n, n + 1))
+        offs = (-1, 0, 1) if fmt == "dia_band" else (((0, 2) if n > 2 else (0, 1)) if shape == "sq" else (1, n, n + 1))
         for i in range(n):
             for o in offs:
                 j = i + o
